@@ -4,9 +4,12 @@
 (* implementation layer computes.  Checked: the implementation outcomes are   *)
 (* admissible at the property layer (ImplRefines) and the state invariants.   *)
 EXTENDS Socket
-CONSTANTS MaxOps, Lens, Vals, Rbufs
-VARIABLES nops
-mvars == <<svars, nops>>
+CONSTANTS MaxOps, Lens, Vals, Rbufs,
+          FreshReader   \* design switch: the gob decoder reads each packet from a reader of its own (FALSE: one
+                        \* buffered reader for the life of the socket keeps what a rejected packet left unread)
+VARIABLES nops,
+          stale         \* implementation layer: unread remainder of a rejected packet (<<>> or <<message>>)
+mvars == <<svars, nops, stale>>
 
 Fds(k) == [i \in 1..k |-> i]
 Msgs == IF layer = "raw"
@@ -18,12 +21,27 @@ Frees == {-1, 0, 1}
 Reqs == IF layer = "raw" THEN { [rbuf |-> b, want |-> "M", free |-> f] : b \in Rbufs, f \in Frees }
         ELSE { [rbuf |-> 0, want |-> w, free |-> f] : w \in {"M", "X"}, f \in Frees }
 
-MInit == Init /\ nops = 0
+Bads == { [id |-> nops + 1, len |-> 1, val |-> 2, nfds |-> k, fds |-> Fds(k), cred |-> <<>>, typ |-> "C"] : k \in {0, MaxFds} }
+\* with a long-lived buffered reader the decoder first finds the remainder of the rejected packet: that one is
+\* "delivered" -- with the descriptors of the packet that just arrived -- and the new packet becomes the remainder
+RecvStale ==
+  /\ ~FreshReader /\ stale # <<>> /\ q # <<>>
+  /\ LET p == Head(q) IN
+       /\ q' = Tail(q) /\ stale' = <<p.m>>
+       /\ dlv' = Append(dlv, stale[1].id)
+       /\ arrived' = arrived + p.m.nfds /\ handed' = handed + p.m.nfds
+       /\ held' = Append(held, [orig |-> stale[1], cur |-> stale[1], seen |-> FALSE])
+  /\ UNCHANGED <<layer, passcred, acc, lost, closed, encKnown, decKnown, pend>>
+MInit == Init /\ nops = 0 /\ stale = <<>>
 MNext == /\ nops < MaxOps
          /\ nops' = nops + 1
-         /\ \/ \E m \in Msgs : Send(m, SendImpl(m))
-            \/ \E r \in Reqs : q # <<>> /\ Recv(r, RecvImpl(Head(q), r))
-            \/ \E j \in DOMAIN held : Inspect(j)
+         /\ \/ \E m \in Msgs : Send(m, SendImpl(m)) /\ UNCHANGED stale
+            \/ \E m \in Bads : Inject(m) /\ UNCHANGED stale
+            \/ /\ FreshReader \/ stale = <<>>
+               /\ \E r \in Reqs : /\ q # <<>> /\ Recv(r, RecvImpl(Head(q), r))
+                                  /\ stale' = IF ~FreshReader /\ Head(q).bad /\ r.free < 0 THEN <<Head(q).m>> ELSE stale
+            \/ RecvStale
+            \/ \E j \in DOMAIN held : Inspect(j) /\ UNCHANGED stale
 MSpec == MInit /\ [][MNext]_mvars
 
 ImplRefines ==
